@@ -1,10 +1,11 @@
 (* C16 — Printed decay-mode tables show every mode once, correctly ordered and scaled.
    Model: Dec/Print.v (rows, order, scaling over exact rationals) and Dec/Fmt7.v ("{:.7g}": seven significant digits,
    correctly rounded, ties to even, fixed / exponent notation, trailing zeros removed).  The float arithmetic before the
-   formatting (float(literal), sum, division) is CPython's: the check compares the printed text with the model's text
-   for the exact value and for the value moved by 2^-46 either way. *)
+   formatting is modelled as well (Dec/Fl64.v: binary64 round-to-nearest-even on exact rationals for float(literal) and "/",
+   CPython 3.12's compensated sum()): the check compares the printed text of every number with the ONE text the model computes
+   (and still requires it to be within 2^-46 of the ideal value, for which the ordering / scaling theorems are stated). *)
 From Coq Require Import String List Bool ZArith QArith Permutation.
-From DL Require Import Lib.Val Dec.Print Dec.PrintProofs Dec.Num Dec.Fmt7 Dec.Fmt7Proofs.
+From DL Require Import Lib.Val Dec.Print Dec.PrintProofs Dec.Num Dec.Fmt7 Dec.Fmt7Proofs Dec.Fl64 Dec.Fl64Proofs.
 Import ListNotations.
 Close Scope Q_scope.
 Open Scope string_scope.
@@ -80,3 +81,22 @@ Example C16_g7_examples :
   fmt_g7 (1 # 2) = "0.5" /\ fmt_g7 (750469 # 10000000) = "0.0750469" /\ fmt_g7 (1 # 100000) = "1e-05" /\
   fmt_g7 (99999995 # 10) = "1e+07" /\ fmt_g7 (12345675 # 10) = "1234568" /\ fmt_g7 (12345665 # 10) = "1234566" /\ fmt_g7 0 = "0".
 Proof. vm_compute. repeat split. Qed.
+
+(* the floats behind the numbers: rnd64 a b (the model of float(literal) and of every "+", "-", "/" on floats) is the binary64
+   nearest to a/b — a 53-bit significand m and an exponent in the normal range, m (times 2 after a carry into a 54th bit) being
+   a/b scaled into [2^52, 2^53) and rounded to the nearest integer, ties to even *)
+Theorem C16_floats_correctly_rounded : forall a b m k, (0 < a)%Z -> (0 < b)%Z -> rnd64 a b = Some (m, k) ->
+  (2 ^ 52 <= m < 2 ^ 53)%Z /\ (-1074 <= k <= 971)%Z /\
+  exists e0 p q c, scaled2 a b e0 = (p, q) /\ (0 < q)%Z /\ (2 ^ 52 * q <= p < 2 ^ 53 * q)%Z /\
+                   (c = 1 \/ c = 2)%Z /\ k = (e0 - 52 + (if c =? 1 then 0 else 1))%Z /\ (2 * Z.abs (p - q * (m * c)) <= q)%Z.
+Proof. exact rnd64_spec. Qed.
+Print Assumptions C16_floats_correctly_rounded.
+
+(* the numbers of a normalised table as CPython 3.12 shows them: float(literal), compensated sum, division, "{:.7g}" *)
+Example C16_float_example :
+  shown_texts {| o_print_model := false; o_photos_kw := false; o_ascending := false; o_normalize := true; o_scale := None |}
+    (Some [{| p_bf := 1 # 10; p_fs := ["a"]; p_photos := false; p_model := "PHSP"; p_params := [] |};
+           {| p_bf := 2 # 10; p_fs := ["b"]; p_photos := false; p_model := "PHSP"; p_params := [] |};
+           {| p_bf := 3 # 10; p_fs := ["c"]; p_photos := false; p_model := "PHSP"; p_params := [] |}])
+  = Some ["0.5"; "0.3333333"; "0.1666667"].
+Proof. vm_compute. reflexivity. Qed.
